@@ -81,6 +81,15 @@ def install_hint_support(reg):
     (Common._connect consumes the parsed hints)"""
     sf = reg.spec_funcs
     generic = {k: sf.get(k) for k in ("n_calls", "is_method_of", "iter_n_calls", "iter_call_arg", "n_events")}
+
+    def call_result(it, suffix, k=None):
+        """result of the k-th contract-applied call whose target ends with suffix; None when there is no such call (the clause
+        that uses it also counts the calls, so it is then false, not an error)"""
+        evs = [e for e in it.ctx.trace if e[0] == "callret" and e[1][0].endswith(it.concrete(suffix))]
+        k = it.concrete(k) if k is not None else 0
+        return evs[k][1][1] if k < len(evs) else NONE
+
+    sf["call_result"] = call_result
     sf["valid_hint"] = lambda it, h: VBool(_valid_tcp(h))
     sf["valid_any_hint"] = lambda it, h: VBool(_valid_any(h))
     sf["all_valid"] = lambda it, s: VBool(_valid_seq(s))
@@ -435,7 +444,7 @@ CONTRACTS.append(
              """,
              requires=["valid_hint(h0)"],
              ensures=[("relay-hint-parses-back-to-the-same-target",
-                       "isinstance(result, RelayV1Hint) and len(result.hints) == 1 and result.hints[0] == h0")],
+                       "isinstance(result, RelayV1Hint) and len(result.hints) == 1 and implies(len(result.hints) == 1, result.hints[0] == h0)")],
              note="the relay hints this side produces carry exactly one Direct sub-hint (Common.__init__ / "
                   "Connector.__attrs_post_init__ build RelayV1Hint(hints=(relay_hint,)) from parse_hint_argv): encode_hint's "
                   "relay branch (inlined, real loop) followed by parse_hint (parse_tcp_v1_hint by contract) gives it back"))
